@@ -37,8 +37,10 @@ TRUSTED_BASE = TRUSTED_BASE_COMMON + [
 ]
 ASSUMPTIONS = [
     "gas is not modelled: every call gets ample gas (call_gas_limit / the 63/64 rule never bind)",
-    "call targets are EVM contracts, plain accounts, or not-yet-created CREATE2 addresses (which the platform "
-    "refuses for InvokeContract: exit 22); precompiles and native actors as call targets are excluded",
+    "call targets are EVM contracts, plain accounts, or not-yet-created CREATE2 addresses; for the latter the "
+    "harness VM (like /repo/test_vm) refuses InvokeContract on a placeholder with exit 22 and both models follow "
+    "it, whereas the real placeholder actor accepts every method (a harness-VM quirk on a target class that is "
+    "outside the property); precompiles and native actors as call targets are excluded",
     "fuel (call depth) exhaustion is an inner call failure in both models; the harness VM has no depth limit and "
     "generated call graphs are finite (calls go to strictly higher entry points)",
     "events are compared as a multiset per message (the harness VM records events per invocation, not in global "
